@@ -206,6 +206,36 @@ def check_html_pos(text, elements, p, options=None):
     return bad
 
 
+def stray_brace_variant(text, nodes):
+    """The same stylesheet with a stray `}` typed in front of its last top-level rule (a half-edited file): the rule is still
+    the section of every position inside it, at the shifted offsets.  -> (class, detail, position in the original text)"""
+    rules_ = [n for n in nodes if n['kind'] == 'rule']
+    tops = [n for n in rules_ if not any(o is not n and o['start'] < n['start'] and n['end'] <= o['end'] for o in rules_)]
+    if not tops:
+        return []
+    last = max(tops, key=lambda n: n['start'])
+    ins = '} '
+    text2 = text[:last['start']] + ins + text[last['start']:]
+    inner = [n for n in nodes if n['kind'] == 'rule' and last['start'] <= n['start'] and n['end'] <= last['end']]
+    bad = []
+    for p in range(last['start'] + 1, last['end']):
+        if any(p == r['start'] or p == r['end'] for r in inner):
+            continue
+        enc = sorted((r for r in inner if r['start'] < p < r['end']), key=lambda r: r['end'] - r['start'])
+        r = enc[0]
+        exp = tuple(x + len(ins) for x in (r['start'], r['end'], r['body'][0], r['body'][1]))
+        try:
+            sec = get_css_section(text2, p + len(ins), True)
+        except Exception as ex:
+            bad.append(('get_css_section:stray-brace:exception:%s' % type(ex).__name__, str(ex)[:100], p))
+            break
+        got = None if sec is None else (sec.start, sec.end, sec.body_start, sec.body_end)
+        if got != exp:
+            bad.append(('get_css_section:stray-brace:wrong-section', dict(text=text2, expected=exp, got=got), p))
+            break
+    return bad
+
+
 # ---------------------------------------------------------------- CSS oracle
 def decl_model(n):
     ranges = []
@@ -267,6 +297,38 @@ def check_css_pos(text, nodes, p):
                             bad.append(('get_css_section:before-offset', dict(expected=w_['before'], got=g.before, prop=g.to_json())))
                         elif g.after != w_['after']:
                             bad.append(('get_css_section:after-offset', dict(expected=w_['after'], got=g.after, prop=g.to_json())))
+    if has_stmt and not any(p == r['start'] or p == r['end'] for r in rules):
+        # documents with value-less statements (`@include x;`): whether such a statement is listed among the properties is left
+        # open, but every real declaration must be listed with its exact name and value ranges, in order, and an entry that is
+        # no declaration must be exactly one of the statements (name = the statement, empty value)
+        enc = [r for r in rules if r['start'] < p < r['end']]
+        enc.sort(key=lambda r: r['end'] - r['start'])
+        try:
+            sec = get_css_section(text, p, True)
+        except Exception as ex:
+            return [('get_css_section:exception:%s' % type(ex).__name__, str(ex)[:100])]
+        if enc and sec is not None and (sec.start, sec.end) == (enc[0]['start'], enc[0]['end']):
+            kids = [nodes[ci] for ci in enc[0]['children']]
+            decls = [c for c in kids if c['kind'] == 'decl']
+            stmts = {tuple(c['name']) for c in kids if c['kind'] == 'stmt'}
+            di = 0
+            for g in sec.properties or []:
+                if di < len(decls) and tuple(g.name) == tuple(decls[di]['name']):
+                    if tuple(g.value) != tuple(decls[di]['value']):
+                        bad.append(('get_css_section:property-name-or-value-range', dict(expected=decls[di]['value'], got=g.to_json())))
+                        break
+                    di += 1
+                elif tuple(g.name) in stmts and g.value[0] == g.value[1]:
+                    continue
+                else:
+                    bad.append(('get_css_section:property-that-is-neither-a-declaration-nor-a-statement', dict(got=g.to_json(),
+                                next_declaration=decls[di]['name'] if di < len(decls) else None)))
+                    break
+            else:
+                if di != len(decls):
+                    bad.append(('get_css_section:property-count', dict(expected=len(decls), got=di)))
+        elif enc and sec is None:
+            bad.append(('get_css_section:none-inside-rule', dict(expected=(enc[0]['start'], enc[0]['end']))))
     # select_item_css
     items = sorted(nodes, key=lambda n: n['start'])
     in_head = any((n['kind'] in ('decl', 'stmt') and n['start'] < p < n['end']) or (n['kind'] == 'rule' and n['sel'][0] < p < n['sel'][1])
@@ -368,6 +430,10 @@ def run_shard(shard, ctx, tier):
                 ctx.violation(cls, dict(lang='css', shape=sh, rotation=rot, layout=lay, last_without_semicolon=nosemi, statements=stmts,
                                         pos=p, text=text), d)
         ctx.outcome(('css', len(nodes), len(text)))
+        for cls, d, p in stray_brace_variant(text, nodes):
+            ctx.violation(cls, dict(lang='css', shape=sh, rotation=rot, layout=lay, last_without_semicolon=nosemi, statements=stmts,
+                                    pos=p, text=text, stray_brace=True), d)
+        ctx.evals += 1
     if text:
         ctx.sample(dict(stylesheet=text))
 
@@ -392,6 +458,8 @@ def check_case(case):
         return check_html_pos(text, elements, case['pos'])
     text, nodes = CD.emit(_tup(case['shape']), case['rotation'], case['layout'],
                           CD.DECLS_WITH_STATEMENT if case.get('statements') else CD.DECLS_TOKENS, case['last_without_semicolon'])
+    if case.get('stray_brace'):
+        return [(c, d) for c, d, _ in stray_brace_variant(text, nodes)]
     return check_css_pos(text, nodes, case['pos'])
 
 
